@@ -103,8 +103,9 @@ def _overlapping_pointer(octets, off=3):
 
 
 def classify(tr, line, clause):
-    """Case signature of a rejected trace.  The two documented defects get their specific
-    signature only for exactly the failing configuration; everything else keeps a generic one."""
+    """Case signature of a rejected trace.  The two defects found with this check (F20, F23, both
+    repaired in /repo since) keep their specific signature for exactly the failing configuration;
+    everything else gets a generic one."""
     ev = tr.get("ev", [])
     e = ev[line - 1] if line and 0 < line <= len(ev) else {}
     op = e.get("op", "?")
@@ -115,19 +116,10 @@ def classify(tr, line, clause):
         return "F20:ede-extra-text-trailing-nul:%s" % clause
     if ty == "OPT" and op == "dec" and clause == "FixedPoint" and e.get("res") == "ok" and _ede_text_nuls(e.get("b", []), 2):
         return "F20:ede-extra-text-trailing-nul:%s" % clause
-    # F21: AliasMode (priority 0) SVCB/HTTPS with SvcParams: accepted by the constructor, refused by from_wire
-    if ty in ("SVCB", "HTTPS") and op == "enc" and clause == "DecodesOwnWire" and e.get("exc") == "FormError" \
-            and isinstance(e.get("v"), list) and len(e["v"]) == 3 and e["v"][0] == 0 and len(e["v"][2]) > 0:
-        return "F21:svcb-aliasmode-params-constructible-but-not-decodable"
-    # F22: a repeated SvcParamKey is accepted (RFC 9460 2.2 requires strictly increasing keys); the check in
-    # from_wire only refuses decreasing keys
-    if ty in ("SVCB", "HTTPS") and op == "dec" and clause == "MalformedPerRfc" and e.get("res") == "ok":
-        ks = _svcb_keys(e.get("b", []))
-        if ks and all(a <= b for a, b in zip(ks, ks[1:])) and any(a == b for a, b in zip(ks, ks[1:])):
-            return "F22:svcb-repeated-svcparamkey-accepted"
     # F23: a name whose pointer leads to labels overlapping the pointer: the name parser resumes at the
     # furthest octet read instead of after the pointer, so left-over RDATA octets are accepted
-    if op == "dec" and clause == "NoTrailingOctets" and e.get("res") == "ok" and _overlapping_pointer(e.get("b", [])):
+    if op == "dec" and clause in ("NoTrailingOctets", "MustReject", "MustAccept", "ReencodeSpec") and e.get("res") == "ok" \
+            and _overlapping_pointer(e.get("b", [])):
         return "F23:name-pointer-overlap-hides-trailing-octets"
     if op == "dec":
         return "%s:%s:dec:%s:%s:%s" % (clause, ty, e.get("ft", ["?"])[0], e.get("res", "?"), e.get("exc", ""))
@@ -232,6 +224,7 @@ def run(ctx):
     batch, acc, nb = [], 0, 0
     limit = 10 ** 9 if quick else 250000
     first = True
+    held, heldmap = [], {}
     for j in jobs + [None]:
         if j is not None:
             batch.append(j)
@@ -246,10 +239,13 @@ def run(ctx):
                     ctx.sample({"tid": tr["tid"], "ty": tr["ty"], "ev": [{k: v for k, v in e.items() if k != "fts"} for e in tr["ev"][:2]]})
                 traces = traces + [{"tid": "cover:%s" % ty, "ty": ty, "ev": [{"op": "cover", "n": n}]} for ty, n in sorted(n_vec.items())]
             account(ctx, traces, stats)
-            judge(ctx, tcfg, traces, {x["tid"]: x for x in batch})
+            if quick:
+                held, heldmap = traces, {x["tid"]: x for x in batch}   # validated together with the random octets below
+            else:
+                judge(ctx, tcfg, traces, {x["tid"]: x for x in batch})
             batch, acc = [], 0
     # seeded random octets for every type and ~50 unknown type codes
-    nrand = 240 if quick else 4000
+    nrand = 180 if quick else 4000
     rjobs = []
     for ty in sorted(by_type):
         if ty == "UNKNOWN":
@@ -273,12 +269,23 @@ def run(ctx):
     for tr in rtraces[:1]:
         ctx.sample({"tid": tr["tid"], "ty": tr["ty"], "ev": tr["ev"][:2]})
     account(ctx, rtraces, stats)
-    judge(ctx, tcfg, rtraces, {x["tid"]: x for x in rjobs})
+    rmap = {x["tid"]: x for x in rjobs}
+    if quick:
+        # one validation run, 8 JVMs: a TLC start costs ~3-4 CPU-s, which dominates small shards
+        rmap.update(heldmap)
+        judge(ctx, tcfg, held + rtraces, rmap, shards=8)
+    else:
+        judge(ctx, tcfg, rtraces, rmap)
     ctx.extra.update({"encode_cases": stats["enc"], "decode_cases": stats["dec"], "decode_cases_accepted_by_impl": stats["acc"],
                       "library_calls_that_did_not_return": stats["hang"],
                       "constructor_accepted_but_not_encodable": stats["unenc"][:20],
                       "wellformed_vectors_refused_by_constructor_per_type": stats["refused"]})
-    ctx.drift = sum(stats["refused"].values())
+    # drift (never alarms): RFC 9460 2.2 tells receivers to refuse SvcParamKeys that are not strictly
+    # increasing; the library refuses decreasing keys but accepts a repeated one (fixed point and rdlen hold)
+    ctx.extra["svcb_octets_with_nonincreasing_keys_accepted"] = stats.get("svcb_unordered", 0)
+    # drift: the constructor accepts an AliasMode record with SvcParams that from_text/from_wire refuse
+    ctx.extra["svcb_aliasmode_with_params_constructible"] = c02_rdata.aliasmode_probe()
+    ctx.drift = sum(stats["refused"].values()) + stats.get("svcb_unordered", 0) + int(ctx.extra["svcb_aliasmode_with_params_constructible"])
     ctx.evaluations = stats["enc"] + stats["dec"]
     ctx.log("%d encode cases, %d decode cases recorded" % (stats["enc"], stats["dec"]))
 
@@ -305,13 +312,17 @@ def account(ctx, traces, stats):
             elif op == "dec":
                 stats["dec"] += 1
                 stats["acc"] += e.get("res") == "ok"
+                if tr["ty"] in ("SVCB", "HTTPS") and e.get("res") == "ok":
+                    ks = _svcb_keys(e.get("b", []))
+                    if any(a >= b for a, b in zip(ks, ks[1:])):
+                        stats["svcb_unordered"] = stats.get("svcb_unordered", 0) + 1
                 ctx.distinct.add(hash((tr["ty"], bytes(e.get("b", [])))))
             elif op == "hang":
                 stats["hang"] += 1
 
 
-def judge(ctx, tcfg, traces, jobmap):
-    rejects = ctx.validate("Trace_RdataCodec", tcfg, traces, heap="2g")
+def judge(ctx, tcfg, traces, jobmap, shards=16):
+    rejects = ctx.validate("Trace_RdataCodec", tcfg, traces, heap="2g", shards=shards)
     for tr, line, clause in rejects:
         sig = classify(tr, line, clause)
         e = tr["ev"][line - 1] if line and 0 < line <= len(tr["ev"]) else {}
